@@ -30,7 +30,8 @@ Definition efact (c2v : list nat) (opp : list (option nat)) (nf : nat) (Q : list
       (forall x, x < 3 * nf -> is_degenerated c2v (x / 3) = false -> vtx c2v x = vtx c2v c ->
          opp_at opp (next_c x) <> None /\ opp_at opp (prev_c x) <> None /\
          forall j', k < j' < length Q -> nth j' Q 0 / 3 <> x / 3)) \/
-   y = 1%Z).
+   (y = 1%Z /\ exists x, x < 3 * nf /\ is_degenerated c2v (x / 3) = false /\ vtx c2v x = vtx c2v c /\ x <> c /\
+      ((forall j', j' < k -> nth j' Q 0 / 3 <> x / 3) \/ opp_at opp (next_c x) = None \/ opp_at opp (prev_c x) = None))).
 
 (** an interior start face (index form, without the hole ids): every corner has a neighbour, no vertex lies on a boundary *)
 Definition IFc' (c2v : list nat) (opp : list (option nat)) (nf : nat) (ic : nat) : Prop :=
@@ -167,6 +168,8 @@ Hypothesis Hhl : length hid = nv.
 Hypothesis Hhr : forall v h, nth v hid None = Some h -> h < nh.
 Hypothesis Hhb : forall j, j < 3 * nf -> is_degenerated c2v (j / 3) = false -> opp_at opp j = None ->
   nth (vtx c2v (next_c j)) hid None <> None /\ nth (vtx c2v (prev_c j)) hid None <> None.
+Hypothesis Hhc : forall v, nth v hid None <> None ->
+  exists j, j < 3 * nf /\ is_degenerated c2v (j / 3) = false /\ opp_at opp j = None /\ vtx c2v (next_c j) = v.
 Hypothesis EH : forall s c first, length (vv s) = nv -> length (vhole s) = nh -> c < 3 * nf ->
   nondeg c2v c -> nth (vtx c2v c) hid None <> None ->
   exists vv' vh', encode_hole c2v opp hid s c first = EOk (with_vhole (with_vv s vv') vh') /\
@@ -224,7 +227,8 @@ Definition fact (ifs : list nat) (nxt : option nat) (c : nat) (y : Z) (P : list 
    (y = 3%Z /\ nxt <> None /\ rc = nxt /\ vis_o P ifs lc) \/
    (y = 0%Z /\ nxt <> None /\ rc = nxt /\ nth (vtx c2v c) hid None = None /\
       forall x, x < 3 * nf -> nondeg x -> vtx c2v x = vtx c2v c -> ~ In (x / 3) (faces P ++ ifs)) \/
-   y = 1%Z).
+   (y = 1%Z /\ exists x, x < 3 * nf /\ nondeg x /\ vtx c2v x = vtx c2v c /\ x <> c /\
+      (In (x / 3) (faces P ++ ifs) \/ opp_at opp (next_c x) = None \/ opp_at opp (prev_c x) = None))).
 
 Inductive hist (ifs : list nat) : option nat -> list nat -> list Z -> Prop :=
 | h_nil nxt : hist ifs nxt [] []
@@ -264,17 +268,91 @@ Proof.
 Qed.
 
 (** without an S symbol there is no face-to-split-symbol entry and no topology split event *)
-Definition NSI (s : est) : Prop := ~ In 1%Z (syms s) -> f2s s = [] /\ evs s = [].
+Definition NSI0 (s : est) : Prop := ~ In 1%Z (syms s) -> f2s s = [] /\ evs s = [].
+(** a vertex is marked visited only if it lies on a mesh boundary or in a visited face *)
+Definition VV (s : est) : Prop :=
+  forall v, nth v (vv s) false = true ->
+    nth v hid None <> None \/ exists x, x < 3 * nf /\ vtx c2v x = v /\ nth (x / 3) (vf s) false = true.
+Definition NSI (s : est) : Prop := NSI0 s /\ VV s.
+
 Lemma NSI_check s e o : NSI s -> NSI (check_split s e o).
 Proof.
-  intros H. unfold NSI in *. assert (E : syms (check_split s e o) = syms s).
-  { unfold check_split. destruct o; auto. destruct (split_symbol_on_face _ _); auto. }
-  rewrite E. intros N. destruct (H N) as [A B]. unfold check_split. destruct o; auto. rewrite A. cbn. auto.
+  intros [H V]. destruct (check_split_frame s e o) as (F1 & F2 & _). split.
+  - unfold NSI0 in *. assert (E : syms (check_split s e o) = syms s).
+    { unfold check_split. destruct o; auto. destruct (split_symbol_on_face _ _); auto. }
+    rewrite E. intros N. destruct (H N) as [A B]. unfold check_split. destruct o; auto. rewrite A. cbn. auto.
+  - unfold VV. rewrite F1, F2. exact V.
 Qed.
 Lemma NSI_emit s y : NSI s -> NSI (emit s y).
-Proof. intros H N. apply H. intro X. apply N. cbn. auto. Qed.
-Lemma NSI_S s : In 1%Z (syms s) -> NSI s.
-Proof. intros H N. contradiction. Qed.
+Proof. intros [H V]. split; [|exact V]. intros N. apply H. intro X. apply N. cbn. auto. Qed.
+Lemma NSI_stack s r : NSI s -> NSI (with_stack s r).
+Proof. intros [H V]. split; auto. Qed.
+Lemma NSI_S s : In 1%Z (syms s) -> VV s -> NSI s.
+Proof. intros H V. split; auto. intros N. contradiction. Qed.
+
+Lemma VV_mark s c : c < 3 * nf -> length (vf s) = nf -> VV s -> VV (mark_state c2v s c).
+Proof.
+  intros Hc Lf V v Hv0. destruct (mark_frame c2v s c) as (F1 & _ & _ & F4 & _).
+  assert (Hf3 : c / 3 < nf) by (apply Nat.div_lt_upper_bound; lia).
+  assert (Cases : v = vtx c2v c \/ nth v (vv s) false = true).
+  { unfold mark_state in Hv0. cbv zeta in Hv0. destruct (nth (vtx c2v c) (vv s) false) eqn:E; cbn [vv with_vv with_pcc with_vf with_last_id] in Hv0; auto.
+    rewrite nth_upd in Hv0. destruct (v =? vtx c2v c) eqn:Q; [apply Nat.eqb_eq in Q; auto|]. cbn in Hv0. auto. }
+  rewrite F1. destruct Cases as [->|Hv1].
+  - right. exists c. split; auto. split; auto. apply nth_upd_eq. lia.
+  - destruct (V v Hv1) as [X|(x & A & B & C)]; auto. right. exists x. split; auto. split; auto. apply (proj2 (vle_upd (vf s) (c / 3))). auto.
+Qed.
+
+(** EncodeHole marks boundary vertices only *)
+Lemma bnd_swing_nd : forall fuel x c', x < 3 * nf -> nondeg x -> bnd_swing opp fuel x = EOk c' ->
+  c' < 3 * nf /\ nondeg c' /\ opp_at opp c' = None.
+Proof.
+  induction fuel as [|k IH]; intros x c' Hx Nx E; cbn [bnd_swing] in E; [discriminate|].
+  rewrite (e_opp_ok x Hx) in E. cbn [ebind] in E. destruct (opp_at opp x) as [oc|] eqn:Eo.
+  - destruct (opp_facts _ _ Eo) as (_ & _ & Ho & _ & Do & _). apply (IH (next_c oc)); auto.
+    + apply next_lt; auto.
+    + unfold nondeg, EbEncoder_proofs.nondeg. rewrite next_face. auto.
+  - inversion E as [E']. rewrite <- E'. auto.
+Qed.
+
+Lemma eh_walk_vv : forall fuel vvl c act start_v vvl', c < 3 * nf -> nondeg c -> opp_at opp c = None -> act = vtx c2v (prev_c c) ->
+  eh_walk c2v opp fuel vvl c act start_v = EOk vvl' ->
+  forall v, nth v vvl' false = true -> nth v vvl false = true \/ nth v hid None <> None.
+Proof.
+  induction fuel as [|k IH]; intros vvl c act start_v vvl' Hc Nc Oc Ea E v Hv0; cbn [eh_walk] in E; [discriminate|]. subst act.
+  destruct (vtx c2v (prev_c c) =? start_v); [left; congruence|].
+  destruct (eset vvl (vtx c2v (prev_c c)) true) as [vvl1| | |] eqn:E1; cbn [ebind] in E; try discriminate.
+  destruct (bnd_swing opp (swing_fuel c2v) (next_c c)) as [c1| | |] eqn:E2; cbn [ebind] in E; try discriminate.
+  destruct (bnd_swing_nd _ _ _ (next_lt _ _ Hc) ltac:(unfold nondeg, EbEncoder_proofs.nondeg in *; rewrite next_face; auto) E2) as (H1 & N1 & O1).
+  rewrite (e_vertex_ok (prev_c c1)) in E by (apply prev_lt; auto). cbn [ebind] in E.
+  destruct (IH _ _ _ _ _ H1 N1 O1 eq_refl E v Hv0) as [X|X]; auto.
+  unfold eset in E1. destruct (vtx c2v (prev_c c) <? length vvl); [|discriminate]. inversion E1; subst vvl1.
+  rewrite nth_upd in X. destruct ((v =? vtx c2v (prev_c c)) && _) eqn:Q; auto.
+  apply andb_prop in Q. destruct Q as [Q _]. apply Nat.eqb_eq in Q. subst v. right. apply (Hhb c Hc Nc Oc).
+Qed.
+
+Lemma encode_hole_vv s c first s' : c < 3 * nf -> nondeg c -> encode_hole c2v opp hid s c first = EOk s' ->
+  forall v, nth v (vv s') false = true -> nth v (vv s) false = true \/ nth v hid None <> None.
+Proof.
+  intros Hc Nc E v Hv0. unfold encode_hole in E.
+  destruct (bnd_swing opp (swing_fuel c2v) (prev_c c)) as [c0| | |] eqn:E0; cbn [ebind] in E; try discriminate.
+  destruct (bnd_swing_nd _ _ _ (prev_lt _ _ Hc) ltac:(unfold nondeg, EbEncoder_proofs.nondeg in *; rewrite prev_face; auto) E0) as (H0 & N0 & O0).
+  rewrite (e_vertex_ok c Hc) in E. cbn [ebind] in E.
+  destruct (if first then eset (vv s) (vtx c2v c) true else EOk (vv s)) as [vvl0| | |] eqn:Ev; cbn [ebind] in E; try discriminate.
+  destruct (eget hid (vtx c2v c)) as [h| | |] eqn:Eh; cbn [ebind] in E; try discriminate. destruct h as [hole|]; [|discriminate].
+  assert (Hh : nth (vtx c2v c) hid None <> None).
+  { unfold eget in Eh. destruct (nth_error hid (vtx c2v c)) as [z|] eqn:Q; [|discriminate]. inversion Eh; subst z.
+    rewrite (nth_error_nth _ _ _ Q). discriminate. }
+  destruct (eset (vhole s) hole true) as [vhl| | |]; cbn [ebind] in E; try discriminate.
+  rewrite (e_vertex_ok (next_c c0)) in E by (apply next_lt; auto). cbn [ebind] in E.
+  rewrite (e_vertex_ok (prev_c c0)) in E by (apply prev_lt; auto). cbn [ebind] in E.
+  destruct (eh_walk c2v opp (swing_fuel c2v) vvl0 c0 (vtx c2v (prev_c c0)) (vtx c2v c)) as [vvl| | |] eqn:Ew; cbn [ebind] in E; try discriminate.
+  inversion E; subst s'. cbn [vv with_vhole with_vv] in Hv0.
+  destruct (eh_walk_vv _ _ _ _ _ _ H0 N0 O0 eq_refl Ew v Hv0) as [X|X]; auto.
+  destruct first; [|inversion Ev as [E']; rewrite E'; auto].
+  unfold eset in Ev. destruct (vtx c2v c <? length (vv s)); [|discriminate]. inversion Ev; subst vvl0.
+  rewrite nth_upd in X. destruct ((v =? vtx c2v c) && _) eqn:Q; auto.
+  apply andb_prop in Q. destruct Q as [Q _]. apply Nat.eqb_eq in Q. subst v. auto.
+Qed.
 
 Lemma inner_hist ifs : forall k s c s', Inv ifs s -> stack s <> [] -> stack_ok s -> SG s -> gate_ok (vv s) c ->
   nth (c / 3) (vf s) false = false -> gatev (vf s) c -> ucnt (vf s) <= k ->
@@ -311,7 +389,8 @@ Proof.
   assert (Sy2 : syms s2 = syms s).
   { unfold s2, mark_state. cbv zeta. destruct (nth (vtx c2v c) (vv s) false); reflexivity. }
   assert (Ns2 : NSI s2).
-  { unfold NSI, s2, mark_state in *. cbv zeta. destruct (nth (vtx c2v c) (vv s) false); exact Ns0. }
+  { destruct Ns0 as [N0 V0]. split; [|apply VV_mark; auto].
+    unfold NSI0, s2, mark_state in *. cbv zeta. destruct (nth (vtx c2v c) (vv s) false); exact N0. }
   assert (Gnb : forall x y, opp_at opp x = Some y -> x / 3 = c / 3 -> gatev (vf s2) y).
   { intros x y E Ex x0 E0. destruct (opp_facts _ _ E) as (E' & _). rewrite E' in E0. inversion E0; subst x0. rewrite Ex.
     rewrite F1. apply nth_upd_eq. lia. }
@@ -365,7 +444,7 @@ Proof.
     + apply (Gnb (next_c c) r0); auto. apply next_face.
     + apply NSI_emit; auto.
   - (* not C *)
-    clear EC.
+
     assert (FV : forall vfl o, length vfl = nf -> (forall x, o = Some x -> x < 3 * nf) ->
               exists b, face_visited_opt vfl o = EOk b /\ (b = false -> exists x, o = Some x /\ nth (x / 3) vfl false = false) /\
                         (b = true -> forall x, o = Some x -> nth (x / 3) vfl false = true)).
@@ -405,7 +484,7 @@ Proof.
         { intros nxt. cbn [with_stack pcc syms emit with_syms]. destruct P4 as [-> ->]. destruct P3 as [-> ->]. rewrite Pc2, Sy2.
           constructor; [auto|]. split; [auto|]. split; [auto|]. split; [auto|]. cbv zeta. left. auto. }
         split; [cbn [with_stack vf emit with_syms]; rewrite D1, C1; auto|].
-        unfold NSI. cbn [with_stack syms f2s evs]. apply (NSI_emit s4 TOPOLOGY_E). apply NSI_check. apply NSI_check. auto.
+        apply NSI_stack. apply (NSI_emit s4 TOPOLOGY_E). apply NSI_check. apply NSI_check. auto.
       * (* R *)
         destruct (Hlf eq_refl) as (l0 & El & Hl0). rewrite El in Ein.
         destruct (Glc l0 El) as (Gl & Nl).
@@ -440,21 +519,36 @@ Proof.
         -- apply (Gnb (next_c c) r0); auto. apply next_face.
         -- apply NSI_emit. apply NSI_check. auto.
       * (* S *)
+        destruct (Hlf eq_refl) as (l0 & El & Hl0).
+        assert (SF : exists x, x < 3 * nf /\ nondeg x /\ vtx c2v x = vtx c2v c /\ x <> c /\
+                  (In (x / 3) (faces (pcc s) ++ ifs) \/ opp_at opp (next_c x) = None \/ opp_at opp (prev_c x) = None)).
+        { assert (Bnd : nth (vtx c2v c) hid None <> None -> exists x, x < 3 * nf /\ nondeg x /\ vtx c2v x = vtx c2v c /\ x <> c /\
+                    (In (x / 3) (faces (pcc s) ++ ifs) \/ opp_at opp (next_c x) = None \/ opp_at opp (prev_c x) = None)).
+          { intros Hh0. destruct (Hhc _ Hh0) as (j & Hj & Nj & Oj & Vj). exists (next_c j).
+            split; [apply next_lt; auto|]. split; [unfold nondeg, EbEncoder_proofs.nondeg; rewrite next_face; auto|]. split; auto.
+            split; [intro X; unfold lc in El; rewrite <- X, prev_next, Oj in El; discriminate|]. right. right. rewrite prev_next. auto. }
+          destruct (nth (vtx c2v c) (vv s) false) eqn:Evis.
+          - destruct (proj2 Ns0 _ Evis) as [X|(x & A & B & C)]; auto.
+            exists x. split; auto. destruct (b_vis _ _ _ _ _ _ B0 x A C) as [Nx _]. split; auto. split; auto.
+            split; [intro X; subst x; congruence|]. left. apply (b_in _ _ _ _ _ _ B0). split; auto. apply Nat.div_lt_upper_bound; lia.
+          - cbn [negb andb] in EC. destruct (nth (vtx c2v c) hid None) eqn:Eh; [|discriminate]. apply Bnd. discriminate. }
         pose proof (emit_S_Inv ifs s2 J2) as I3.
         set (s3 := with_nsplit (emit s2 TOPOLOGY_S) (S (nsplit (emit s2 TOPOLOGY_S)))) in *.
         change (nsplit (emit s2 TOPOLOGY_S)) with (nsplit s2) in *.
         assert (H4 : exists s4, (match nth (vtx c2v c) hid None with
                   | Some hole => b <-- eget (vhole s3) hole ;; if b then EOk s3 else encode_hole c2v opp hid s3 c false
-                  | None => EOk s3 end) = EOk s4 /\ Inv ifs s4 /\ vle (vv s3) (vv s4) /\ vf s4 = vf s3 /\ stack s4 = stack s3 /\ syms s4 = syms s3 /\ pcc s4 = pcc s3).
+                  | None => EOk s3 end) = EOk s4 /\ Inv ifs s4 /\ vle (vv s3) (vv s4) /\ vf s4 = vf s3 /\ stack s4 = stack s3 /\ syms s4 = syms s3 /\ pcc s4 = pcc s3 /\
+                  VV s4).
         { assert (Lh3 : length (vhole s3) = nh) by apply (i_base _ _ _ _ _ _ I3).
           destruct (nth (vtx c2v c) hid None) as [hole|] eqn:Eh.
           - rewrite (eget_lt (vhole s3) hole false) by (rewrite Lh3; eapply Hhr; eauto). cbn [ebind].
             destruct (nth hole (vhole s3) false).
-            + exists s3. split; [reflexivity|]. split; [exact I3|]. split; [apply vle_refl|]. auto.
+            + exists s3. split; [reflexivity|]. split; [exact I3|]. split; [apply vle_refl|]. repeat split; auto. apply Ns2.
             + destruct (EH s3 c false) as (vv' & vh' & E1 & E2 & E3 & _); auto; try apply (i_base _ _ _ _ _ _ I3). congruence.
-              rewrite E1. eexists. split; [reflexivity|]. split; [apply Inv_vv; auto|]. split; [exact E2|]. auto.
-          - exists s3. split; [reflexivity|]. split; [exact I3|]. split; [apply vle_refl|]. auto. }
-        destruct H4 as (s4 & E4 & I4 & M4 & Vf4 & St4 & Sy4 & Pc4). rewrite E4 in Ein. cbn [ebind] in Ein.
+              rewrite E1. eexists. split; [reflexivity|]. split; [apply Inv_vv; auto|]. split; [exact E2|]. repeat split; auto.
+              intros v Hv0. destruct (encode_hole_vv s3 c false _ Hc Hd E1 v Hv0) as [X|X]; auto. apply (proj2 Ns2). exact X.
+          - exists s3. split; [reflexivity|]. split; [exact I3|]. split; [apply vle_refl|]. repeat split; auto. apply Ns2. }
+        destruct H4 as (s4 & E4 & I4 & M4 & Vf4 & St4 & Sy4 & Pc4 & V4). rewrite E4 in Ein. cbn [ebind] in Ein.
         assert (Ns : syms s4 <> []) by (rewrite Sy4; discriminate).
         pose proof (Inv_f2s ifs s4 (c / 3) I4 Ns) as I5.
         set (s5 := with_f2s s4 ((c / 3, last_id s4) :: f2s s4)) in *.
@@ -476,9 +570,10 @@ Proof.
           ++ inversion Sg2; auto. }
         split.
         { intros nxt. cbn [with_stack pcc syms s5 with_f2s]. rewrite Pc4, Sy4. cbn [s3 pcc syms with_nsplit emit with_syms].
-          rewrite Pc2, Sy2. constructor; [auto|]. split; [auto|]. split; [auto|]. split; [auto|]. cbv zeta. right. right. right. right. reflexivity. }
+          rewrite Pc2, Sy2. constructor; [auto|]. split; [auto|]. split; [auto|]. split; [auto|]. cbv zeta. right. right. right. right.
+          split; [reflexivity|]. exact SF. }
         split; [cbn [with_stack vf s5 with_f2s]; rewrite Vf4; cbn [s3 vf with_nsplit emit with_syms]; auto|].
-        apply NSI_S. cbn [with_stack syms s5 with_f2s]. rewrite Sy4. cbn. auto.
+        apply NSI_S. cbn [with_stack syms s5 with_f2s]. rewrite Sy4. cbn. auto. exact V4.
 Qed.
 
 (** the C entries: no start face of [ifs'] contains the tip vertex *)
@@ -499,7 +594,8 @@ Proof.
       intros x Hxl Nx Vx Hin. apply in_app_or in Hin. destruct Hin as [Hin|Hin].
       * apply (D5 x Hxl Nx Vx). apply in_or_app. auto.
       * subst y0. apply (CS 0 c eq_refl eq_refl x Hxl Nx Vx Hin).
-    + right. right. right. right. auto.
+    + destruct D as (D1 & x & X1 & X2 & X3 & X4 & X5). right. right. right. right. split; auto. exists x. repeat split; auto.
+      destruct X5 as [X|X]; [left|right; auto]. apply in_app_or in X. apply in_or_app. destruct X; auto.
 Qed.
 
 Lemma outer_hist ifs : forall fuel s s', Inv ifs s -> stack_ok s -> SG s -> (forall nxt, hist ifs nxt (pcc s) (syms s)) -> NSI s ->
@@ -584,7 +680,7 @@ Proof.
       - exfalso. specialize (H1 None). rewrite B1, B2 in H1. destruct Pn1 as [|p Pr]; [congruence|].
         cbn [app] in H1. inversion H1 as [|? ? ? ? ? Hh0 Hf]; subst. destruct Hf as (_ & _ & _ & Hd). cbv zeta in Hd.
         destruct X as [X|[X|X]]; subst y0;
-          destruct Hd as [(D1 & _)|[(D1 & D2 & _)|[(D1 & D2 & _)|[(D1 & D2 & _)|D1]]]]; try discriminate; congruence. }
+          destruct Hd as [(D1 & _)|[(D1 & D2 & _)|[(D1 & D2 & _)|[(D1 & D2 & _)|(D1 & _)]]]]; try discriminate; congruence. }
     subst y0. rewrite (S3 eq_refl), St in C4. cbn [tl] in C4. specialize (C4 eq_refl). subst Pn2. destruct Yn2; [|discriminate].
     cbn [app]. exists Yr1. auto.
 Qed.
@@ -666,7 +762,7 @@ Proof.
       - unfold faces. cbn [rev]. rewrite map_app. intros a Ha. apply in_or_app. auto.
       - intros k c Ec Ey x Hx Nx Vx Hin. unfold faces in Hin. cbn [rev] in Hin. rewrite map_app in Hin. apply in_app_or in Hin.
         destruct (hist_nth _ _ _ _ (Hh None)) as [_ Fk]. destruct (Fk k c 0%Z Ec Ey) as (Lc & Dc & _ & D). cbv zeta in D.
-        destruct D as [(D & _)|[(D & _)|[(D & _)|[(_ & _ & _ & _ & D5)|D]]]]; try discriminate.
+        destruct D as [(D & _)|[(D & _)|[(D & _)|[(_ & _ & _ & _ & D5)|(D & _)]]]]; try discriminate.
         destruct Hin as [Hin|[Hin|[]]].
         + apply (D5 x Hx Nx Vx). apply in_or_app. right. exact Hin.
         + (* the new start face is unvisited, but the face of a C corner and hence every face around its tip is visited *)
@@ -676,7 +772,20 @@ Proof.
           assert (Vx' : nth (x / 3) (vf s) false = true).
           { apply (FANC (vf s) c x); auto. intros y Hy Hvis. apply (b_vis _ _ _ _ _ _ B0 y Hy Hvis). }
           rewrite <- Hin in Vx'. congruence. }
-    assert (Ns1 : NSI s1) by exact Ns.
+    assert (Ns1 : NSI s1).
+    { destruct Ns as [N0 V0]. split; [exact N0|]. intros v Hv0. cbn [s1 with_vf with_vv vv vf] in *.
+      assert (Cases : (exists x, x < 3 * nf /\ x / 3 = c_id / 3 /\ vtx c2v x = v) \/ nth v (vv s) false = true).
+      { unfold vv' in Hv0. rewrite !nth_upd in Hv0.
+        destruct ((v =? vtx c2v (prev_c start)) && _) eqn:Q1.
+        { left. apply andb_prop in Q1. destruct Q1 as [Q1 _]. apply Nat.eqb_eq in Q1. exists (prev_c start). split; [apply prev_lt; auto|]. split; [rewrite prev_face; auto|auto]. }
+        destruct ((v =? vtx c2v (next_c start)) && _) eqn:Q2.
+        { left. apply andb_prop in Q2. destruct Q2 as [Q2 _]. apply Nat.eqb_eq in Q2. exists (next_c start). split; [apply next_lt; auto|]. split; [rewrite next_face; auto|auto]. }
+        destruct ((v =? vtx c2v start) && _) eqn:Q3.
+        { left. apply andb_prop in Q3. destruct Q3 as [Q3 _]. apply Nat.eqb_eq in Q3. exists start. auto. }
+        auto. }
+      destruct Cases as [(x & A & B & C)|Hv1].
+      - right. exists x. split; auto. split; auto. rewrite B. apply nth_upd_eq. rewrite (b_vf _ _ _ _ _ _ B0). auto.
+      - destruct (V0 v Hv1) as [X|(x & A & B & C)]; auto. right. exists x. split; auto. split; auto. apply (proj2 (vle_upd (vf s) (c_id / 3))). auto. }
     rewrite (e_opp_ok (next_c start)) by (apply next_lt; auto). cbn [ebind].
     destruct (opp_at opp (next_c start)) as [oc|] eqn:Eo; [|congruence].
     destruct (right_gate vv' start oc Hs Eo A1 A3) as (Go & Nf & _).
@@ -725,7 +834,10 @@ Proof.
     destruct (from_corner c2v opp hid s1 (Some start)) as [s'| | |] eqn:E'; cbn [ebind]; try (intros s0 b0 i0 E; discriminate).
     assert (Gs : gate_ok (vv s1) start) by (repeat split; auto).
     assert (Gvs : gatev (vf s1) start) by (intros x0 E0; congruence).
-    destruct (from_corner_hist _ s1 start s' I1 Gs Gvs) as (R1 & R2 & R3 & R4); auto.
+    assert (Ns1 : NSI s1).
+    { destruct Ns as [N0 V0]. split; [exact N0|]. intros v Hv0.
+      destruct (encode_hole_vv s (next_c start) true _ (next_lt _ _ Hs) Dn' E2 v Hv0) as [X|X]; auto. }
+    destruct (from_corner_hist _ s1 start s' I1 Gs Gvs Hh Ns1 E') as (R1 & R2 & R3 & R4).
     assert (Us : nth (start / 3) (vf s1) false = false).
     { cbn [s1 with_vhole with_vv vf]. destruct (nth (start / 3) (vf s) false) eqn:Q; auto. exfalso.
       assert (V2 : nth (cc / 3) (vf s) false = true).
@@ -734,7 +846,7 @@ Proof.
         - unfold EbEncoder_proofs.nondeg. rewrite F1. auto.
         - rewrite <- (prev_face yy), <- F6. auto. }
       rewrite F1 in V2. congruence. }
-    destruct (from_corner_block _ s1 start s' I1 Gs Gvs Hh Ns Us E') as (Pn & Yn & K1 & K2 & K3 & K4 & K5 & K6).
+    destruct (from_corner_block _ s1 start s' I1 Gs Gvs Hh Ns1 Us E') as (Pn & Yn & K1 & K2 & K3 & K4 & K5 & K6).
     intros s0 b0 i0 E. inversion E as [[X1 X2 X3]]. clear E. subst s0 b0 i0. split; [auto|]. split; [auto|]. split; [|auto].
     rewrite K1, K2. cbn [s1 with_vhole with_vv pcc syms]. apply (R_run opp IFc false bits inits inits); auto.
 Qed.
@@ -765,8 +877,9 @@ Proof.
   { exists (init_est nf nv vh), [], []. split; auto. split. apply (init_Inv c2v opp); auto. split; auto. split; auto.
     split; [|split; [intros i []|simpl; lia]]. intros x y (_ & Vx & _). cbn [init_est vf] in Vx. rewrite nth_repeat_false in Vx. discriminate. }
   assert (H0 : ECH (EOk (init_est nf nv vh, @nil bool, @nil nat))).
-  { intros s b i X. inversion X; subst. cbn. split; [intros; constructor|]. split; [intros _; auto|]. split; [constructor|].
-    intros m1 m2 ic1 ic2 _ X1. destruct m1; discriminate. }
+  { intros s b i X. inversion X as [[Y1 Y2 Y3]]. cbn. split; [intros; constructor|].
+    split; [split; [intros _; auto|intros v Hv0; cbn [init_est vv] in Hv0; rewrite nth_repeat_false in Hv0; discriminate]|]. split; [constructor|].
+    intros m1 m2 ic1 ic2 _ Z1. destruct m1; discriminate. }
   pose proof (ec_fold_ok c2v opp nf nv nh hid Hlen OK Hv Hhl Hhr Hhb EH FI ENDH FANC _ Fa [] _ I0) as (s & bits & inits & Ef & I & Fi & Cb & CL & DN & T3).
   pose proof (ec_fold_hist _ Fa [] _ I0 H0 s bits inits Ef) as (Hh & Ns & HR & HD).
   rewrite Ef in E. cbn [ebind] in E. inversion E; subst o. cbn [o_syms o_events o_bits o_pcc].
@@ -840,8 +953,9 @@ Proof.
           rewrite <- Sk. rewrite <- (firstn_skipn (S k) Q) at 1. rewrite app_nth2 by (rewrite firstn_length_le; lia).
           apply nth_In. rewrite firstn_length_le by lia. rewrite skipn_length. lia. }
         unfold faces. rewrite <- map_app. apply (in_map (fun c => c / 3)). auto.
-    + right. right. right. right. auto.
-  - intros N. rewrite EY in N. destruct (Ns N) as [_ Ev]. rewrite E2, Ev. reflexivity.
+    + destruct D as (D1 & x & X1 & X2 & X3 & X4 & X5). right. right. right. right. split; auto. exists x. repeat split; auto.
+      destruct X5 as [X|[X|X]]; auto. left. apply (NV (Some x)); auto. intros x0 E0. inversion E0 as [E0']. rewrite <- E0'. exact X.
+  - intros N. rewrite EY in N. destruct (proj1 Ns N) as [_ Ev]. rewrite E2, Ev. reflexivity.
   - rewrite E3, rev_involutive, EQ, LY, firstn_app, Nat.sub_diag, firstn_all, skipn_app, Nat.sub_diag, skipn_all. cbn [firstn skipn app].
     rewrite app_nil_r, rev_involutive, EY. apply (RUNS_impl opp IFc); auto.
     intros ic (A1 & A2). split; auto. intros t Ht Ft. destruct (A2 t Ht Ft) as (B1 & B2). split; auto.
@@ -882,6 +996,7 @@ Proof.
   + apply I.
   + apply I.
   + intros j Hj Dj Oj. apply B. split; auto.
+  + intros v Hv0. destruct I as (_ & _ & I3). destruct (I3 v Hv0) as (j & (A1 & A2 & A3) & A4). exists j. auto.
   + intros s c first. apply (encode_hole_ok c2v opp nf nv Hlen OK Hv FAN' hid vh I).
   + intros f. apply (find_init_ok c2v opp nf nv Hlen OK Hv FAN' hid vh I).
   + intros sf cl new vfl RP ND VN L. apply (run_end c2v opp nf hid Hlen OK FAN') with (sf := sf) (cl := cl) (new := new); auto.
